@@ -127,7 +127,15 @@ func (b *Batch) Get(key []byte) ([]byte, error) {
 	if pos == nil {
 		return nil, ErrKeyNotFound
 	}
-	value, err := b.db.activeFile.ReadRecordValue(pos)
+	// 数据库锁已由批处理持有, 此处无需加锁, 但需根据位置信息定位所在文件
+	dataFile := b.db.activeFile
+	if pos.Fid != dataFile.ID {
+		dataFile = b.db.olderFiles[pos.Fid]
+	}
+	if dataFile == nil {
+		return nil, ErrDataFileNotFound
+	}
+	value, err := dataFile.ReadRecordValue(pos)
 	if err != nil {
 		return nil, err
 	}
